@@ -409,12 +409,9 @@ def strip_fn_counts(save, fns):
 
 
 def save_part(save, field):
-    """one top-level field of a SHOWSAVE rendering `ok({...})` (None: unreadable)"""
-    try:
-        return json.dumps(json.loads(save[3:-1]).get(field), sort_keys=True)
-    except Exception:
-        m = re.search(r'"' + re.escape(field) + r'":(\[.*?\]),"flows"', save)
-        return m.group(1) if m else None
+    """the top-level field `evalStack` of a SHOWSAVE rendering (keys are sorted: it is followed by "flows")"""
+    m = re.search(r'"' + re.escape(field) + r'":(\[.*?\]),"flows"', save)
+    return m.group(1) if m else None
 
 
 def probe_case(p, st, path, ops, gvars):
